@@ -314,6 +314,33 @@ func c04Service(w *core.WorkerCtx) {
 			rig.Cache.RemoveAwaitedTransaction(c.Hash, u[2].Addr)
 		}
 	}
+	// stripping the receiver's signature at the moment it is required: Confirm of an awaiting contract without (nil,
+	// empty, one zero byte) the receiver's signature must be refused; the contract stays awaiting, the ledger unchanged
+	for si, stripped := range [][]byte{nil, {}, {0}} {
+		c := ledger.ForgeTrx(u[1], u[2].Addr, fmt.Sprintf("confirm without the receiver's signature %d", si), []byte("contract"), spice.Melange{SupplementaryCurrency: 3}, time.Now().Add(-time.Minute))
+		p, err := transformers.TrxToProtoTrx(c)
+		if err != nil {
+			continue
+		}
+		if _, err := rig.Notary.Propose(ctx, p); err != nil {
+			continue
+		}
+		before, _ := rig.State([]string{u[1].Addr, u[2].Addr})
+		cp, _ := transformers.TrxToProtoTrx(c)
+		cp.ReceiverSignature = stripped
+		w.Mark("c04 service: Confirm with a stripped receiver signature (%d bytes)", len(stripped))
+		_, cerr := rig.Notary.Confirm(ctx, cp)
+		time.Sleep(300 * time.Microsecond)
+		after, _ := rig.State([]string{u[1].Addr, u[2].Addr})
+		r.Eval(1)
+		r.Nontriv(fmt.Sprintf("service/confirm-stripped/%d/refused=%v", len(stripped), cerr != nil))
+		if before != nil && after != nil {
+			if ok, why := svc.SameOrOnlyTipsDropped(before, after); !ok {
+				r.Violate("C04", "accepted/service/receiver-signature-stripped-at-confirm", fmt.Sprintf("Confirm of an awaiting contract with the receiver's signature stripped (%d bytes left; answer: %v) changed the node's state: %s", len(stripped), cerr, why), nil)
+			}
+		}
+		rig.Notary.Reject(ctx, svc.Sign(u[2], c.Hash[:]))
+	}
 	c04Wire(w, rig, rng, foreign)
 	n := w.Pick(120, 1200)
 	seq := 0
@@ -506,6 +533,10 @@ func c04Worker(w *core.WorkerCtx) {
 	}
 	if w.Batch == 1 || (w.Thorough() && w.Batch%8 == 1) {
 		c04Service(w)
+	}
+	if w.Batch == 2 || (w.Thorough() && w.Batch%8 == 2) {
+		// a fourth state of knowledge: the node verified the original and dropped it
+		c09DroppedThenTampered(w, []string{"C04"})
 	}
 	rng := core.Rand(w.Seed, "C04", w.Batch)
 	desc := fmt.Sprintf("c04 mutation engine seed=%d batch=%d", w.Seed, w.Batch)
